@@ -656,6 +656,10 @@ func (e *Ex) start() {
 	}()
 	p := martian.NewProxy()
 	p.SetTimeout(30 * time.Second)
+	if ms, err := strconv.Atoi(e.conn["to"]); err == nil && ms > 0 {
+		// a short idle timeout: a connection that stays busy must outlive it (the deadline is per request)
+		p.SetTimeout(time.Duration(ms) * time.Millisecond)
+	}
 	p.SetRequestModifier(e.w.reqmod())
 	p.SetResponseModifier(e.w.resmod())
 	if e.conn["listener"] == "mitm" || e.conn["listener"] == "shapedmitm" {
@@ -819,6 +823,9 @@ func (e *Ex) runScenario() core.Result {
 			w.mu.Lock()
 			w.current = id
 			w.mu.Unlock()
+			if ms, err := strconv.Atoi(e.conn["gap"]); err == nil && ms > 0 && idx > 0 {
+				time.Sleep(time.Duration(ms) * time.Millisecond)
+			}
 			switch it.kind {
 			case "x":
 				cc.c.SetWriteDeadline(time.Now().Add(ioTimeout))
